@@ -97,7 +97,7 @@ Theorem C19_trace_guarded : forall files limit levels r,
 Proof. exact trace_guarded. Qed.
 Print Assumptions C19_trace_guarded.
 
-(* ... and the listed deviations are the only ones: with all five repaired the
+(* ... and the listed deviations are the only ones: with all six repaired the
    model prints the property's trace for every program shape *)
 Theorem C19_trace_repaired : forall files limit levels r,
   Forall (fun lv => lv_is_native (fst lv) = true -> snd lv = []) levels ->
@@ -238,6 +238,15 @@ Theorem C19_function_ctor_file_refuted :
   <> spec_trace w_files3 10 [(LvGlobal 0, [EvCall KIdent 1 1 1]); (LvFuncNoFile 0 0, [])] (RAt KIdent 18 1 18).
 Proof. vm_compute. discriminate. Qed.
 Print Assumptions C19_function_ctor_file_refuted.
+
+(* function user(){ return o.x } with a getter that raises: user's frame is printed without a place *)
+Theorem C19_implicit_call_site_refuted :
+  model_trace nofix file_position_off w_files3 10
+    [(LvGlobal 0, [EvCall KIdent 1 1 1]); (LvFunc 1 0, [EvImplicit 7 1 7]); (LvFunc 0 0, [])] (RAt KIdent 18 1 18)
+  <> spec_trace w_files3 10
+    [(LvGlobal 0, [EvCall KIdent 1 1 1]); (LvFunc 1 0, [EvImplicit 7 1 7]); (LvFunc 0 0, [])] (RAt KIdent 18 1 18).
+Proof. vm_compute. discriminate. Qed.
+Print Assumptions C19_implicit_call_site_refuted.
 
 Theorem C19_uncaught_text_stale_refuted : exists t, uncaught_text t <> spec_text t.
 Proof. exists (ThError [84] [120] (Some [84]) (Some [121])). vm_compute. discriminate. Qed.
